@@ -6,7 +6,11 @@ package lib
 // and for the transports' ParseParams / GetDstPort.  Records observations only.
 
 import (
+	"bytes"
 	"errors"
+	"net/http"
+	"net/http/httptest"
+	"sync"
 	"fmt"
 	"io"
 	golog "log"
@@ -17,6 +21,7 @@ import (
 	"time"
 
 	"github.com/refraction-networking/conjure/pkg/core"
+	cjlog "github.com/refraction-networking/conjure/pkg/station/log"
 	"github.com/refraction-networking/conjure/pkg/phantoms"
 	"github.com/refraction-networking/conjure/pkg/transports/connecting/dtls"
 	"github.com/refraction-networking/conjure/pkg/transports/wrapping/min"
@@ -27,8 +32,27 @@ import (
 	"google.golang.org/protobuf/types/known/anypb"
 )
 
+type stRaw struct {
+	Nil        bool   `json:"nil"`
+	Keys       bool   `json:"keys"`
+	Phantom    string `json:"phantom"` // hex; HasPhantom=false: nil slice
+	HasPhantom bool   `json:"has_phantom"`
+	Source     int32  `json:"source"`
+	HasSource  bool   `json:"has_source"`
+	Transport  int32  `json:"transport"`
+	Prescanned bool   `json:"prescanned"`
+	HasC2S     bool   `json:"has_c2s"`
+	C2SV4      bool   `json:"c2s_v4"`
+	Covert     string `json:"covert"`
+}
+
 type stCase struct {
-	Op      string `json:"op"` // ingest | newreg | params | dstport
+	Live    bool   `json:"live"`  // worker / rawreg: scripted liveness verdict
+	Share   bool   `json:"share"` // EnableShareOverAPI
+	Peer    int    `json:"peer"`  // what the peer API answers: status code (0: garbage bytes instead of HTTP)
+	WaitMs  int    `json:"wait_ms"` // how long to wait for the (asynchronous) share to arrive
+	Raw     *stRaw `json:"raw"`
+	Op      string `json:"op"` // ingest | newreg | params | dstport | worker | rawreg
 	Msg     string `json:"msg"`
 	V4      bool   `json:"v4"` // EnableIPv4
 	V6      bool   `json:"v6"`
@@ -55,6 +79,10 @@ type stReg struct {
 }
 
 type stObs struct {
+	Announced int  `json:"announced"` // calls of registerForDetector
+	Probes    int  `json:"probes"`    // calls of PhantomIsLive
+	Shares    int  `json:"shares"`    // requests the peer API received
+	CovertOk  bool `json:"covert_ok"` // ParseOrResolveBlocklisted returned a literal (oracle of the model)
 	View    interface{} `json:"view"`
 	AnyView interface{} `json:"anyview"`
 	Sel4    stSel       `json:"sel4"`
@@ -85,6 +113,25 @@ func (g *verifGeo) CC(ip net.IP) (string, error) {
 	}
 	return "unk", nil
 }
+
+type verifLive struct {
+	mu   sync.Mutex
+	n    int
+	live bool
+}
+
+func (l *verifLive) PhantomIsLive(addr string, port uint16) (bool, error) {
+	l.mu.Lock()
+	l.n++
+	l.mu.Unlock()
+	if l.live {
+		return true, errors.New("scripted: live")
+	}
+	return false, errors.New("scripted: not live")
+}
+func (l *verifLive) PrintAndReset(*cjlog.Logger) {}
+func (l *verifLive) PrintStats(*cjlog.Logger)    {}
+func (l *verifLive) Reset()                      {}
 
 func stErrCode(err error) int {
 	if err == nil {
@@ -210,6 +257,134 @@ func TestVerifC11Station(t *testing.T) {
 					o.Regs = append(o.Regs, stReg{IP: fmt.Sprintf("%x", []byte(r.PhantomIp)), Port: r.PhantomPort})
 				}
 			}
+		case "worker", "rawreg":
+			// the body of startIngestThread: parseRegMessage, then ingestRegistration for every registration;
+			// liveness, detector announcement and the peer station's API are scripted
+			var peerMu sync.Mutex
+			shares := 0
+			srv := httptest.NewUnstartedServer(http.HandlerFunc(func(w http.ResponseWriter, r *http.Request) {
+				peerMu.Lock()
+				shares++
+				peerMu.Unlock()
+				_, _ = io.Copy(io.Discard, r.Body)
+				if c.Peer == 0 {
+					// not HTTP at all: hijack and answer garbage
+					if hj, ok := w.(http.Hijacker); ok {
+						if conn, _, err := hj.Hijack(); err == nil {
+							_, _ = conn.Write([]byte("\x00\xff garbage \r\n\r\n"))
+							_ = conn.Close()
+							return
+						}
+					}
+				}
+				w.WriteHeader(c.Peer)
+				_, _ = w.Write(bytes.Repeat([]byte{0xfe}, 3000))
+			}))
+			rm := mk(c)
+			rm.EnableShareOverAPI = c.Share
+			if c.Share {
+				srv.Start()
+				rm.PreshareEndpoint = srv.URL
+			}
+			live := &verifLive{live: c.Live}
+			rm.LivenessTester = live
+			announced := 0
+			var annMu sync.Mutex
+			rm.registeredDecoys.registerForDetector = func(d *DecoyRegistration) {
+				annMu.Lock()
+				announced++
+				annMu.Unlock()
+			}
+			rm.registeredDecoys.updateInDetector = func(d *DecoyRegistration) {}
+			if c.Op == "worker" {
+				msg := vUnhex(c.Msg)
+				o.View = vParse(msg)
+				w := &pb.C2SWrapper{}
+				if proto.Unmarshal(msg, w) == nil {
+					o.Sel4 = stSelect(rm, w, false)
+					o.Sel6 = stSelect(rm, w, true)
+					lit, _ := rm.ParseOrResolveBlocklisted(w.GetRegistrationPayload().GetCovertAddress())
+					o.CovertOk = lit != ""
+				}
+				var rerr error
+				o.Out, o.Detail = vGuard(20*time.Second, func() {
+					var regs []*DecoyRegistration
+					regs, rerr = rm.parseRegMessage(msg)
+					if rerr != nil {
+						return
+					}
+					for _, r := range regs {
+						if r != nil {
+							o.Regs = append(o.Regs, stReg{IP: fmt.Sprintf("%x", []byte(r.PhantomIp)), Port: r.PhantomPort})
+							rm.ingestRegistration(r)
+						}
+					}
+				})
+				if rerr != nil {
+					o.Err = rerr.Error()
+					o.ECode = stErrCode(rerr)
+				}
+			} else {
+				x := c.Raw
+				var reg *DecoyRegistration
+				if !x.Nil {
+					reg = &DecoyRegistration{PhantomPort: 443, Covert: x.Covert, Transport: pb.TransportType(x.Transport), RegistrationTime: time.Now()}
+					if x.Keys {
+						k, _ := core.GenSharedKeys(4, []byte("0123456789abcdef0123456789abcdef"), pb.TransportType(x.Transport))
+						reg.Keys = &k
+					}
+					if x.HasPhantom {
+						b := vUnhex(x.Phantom)
+						if b == nil {
+							b = []byte{}
+						}
+						reg.PhantomIp = net.IP(b)
+					}
+					if x.HasSource {
+						sv := pb.RegistrationSource(x.Source)
+						reg.RegistrationSource = &sv
+					}
+					if x.Prescanned {
+						tr := true
+						reg.Flags = &pb.RegistrationFlags{Prescanned: &tr}
+					}
+					if x.HasC2S {
+						v4 := x.C2SV4
+						reg.originalC2S = &pb.ClientToStation{V4Support: &v4}
+					}
+					if t, ok := rm.registeredDecoys.transports[reg.Transport]; ok {
+						reg.TransportPtr = &t
+					}
+					lit, _ := rm.ParseOrResolveBlocklisted(x.Covert)
+					o.CovertOk = lit != ""
+				}
+				o.Out, o.Detail = vGuard(20*time.Second, func() { rm.ingestRegistration(reg) })
+			}
+			// sharing runs in its own goroutine: give it a moment, then stop the peer
+			annMu.Lock()
+			annNow := announced
+			annMu.Unlock()
+			if c.Share {
+				// nothing was announced: the code returned before the point where it shares, there is nothing to wait for
+				for k := 0; annNow > 0 && k < c.WaitMs/5; k++ {
+					time.Sleep(5 * time.Millisecond)
+					peerMu.Lock()
+					n := shares
+					peerMu.Unlock()
+					if n > 0 {
+						break
+					}
+				}
+				srv.CloseClientConnections()
+			}
+			srv.Close()
+			annMu.Lock()
+			o.Announced = announced
+			annMu.Unlock()
+			o.Probes = live.n
+			peerMu.Lock()
+			o.Shares = shares
+			peerMu.Unlock()
 		case "params":
 			tr := stTransport(c.Transport, pfx)
 			var data *anypb.Any
